@@ -17,7 +17,7 @@ NA = {
 CHECKS = {
  "C02": ("exploration",
    "Seeded allocation-rich programs (strings, tables, rows, closures with captured variables, function values, stdlib with script callbacks, allocating and re-entering host stubs) run under collector schedules the simulator decides through the production threshold branch: a collection at every allocation point, at each single allocation point (all of them up to a cap per program), every k-th, random subsets, and the natural schedule under small limits. Oracles: heap audits over a quarantine of swept objects (no reachable object is swept: immediately after each collection, at the next instruction boundary, at host returns, at run end), equality of the observable outcome with the collection-free run, and the same again with real frees. Sampling in programs; per program the single-point schedules are exhaustive up to the cap.",
-   "Root set per the property text (stack, globals, active frames' closures, guarded objects, arguments of the running host function); upvalues are reached through the closures that use them and their location is followed wherever it points inside the value stack's memory; popped operands of plain instructions are not roots. A collection-free reference run that ends in OutOfMemory or Timeout, or has more than 20000 allocation points, is discarded. Closures capture only in main (frame offset 0) to stay clear of the C06 frame-offset defect. Host natives are stubs.",
+   "Root set per the property text (stack, globals, active frames' closures, guarded objects, arguments of the running host function); upvalues are reached through the closures that use them and their location is followed wherever it points inside the value stack's memory; popped operands of plain instructions are not roots. A collection-free reference run that ends in OutOfMemory or Timeout, or has more than 20000 allocation points, is discarded. Closures are created in any function and capture whatever locals and parameters are in scope there (since fix 58b28ea made captures frame-relative). Host natives are stubs.",
    "deterministic simulation: seeded programs x controlled collector schedules (forced through the production threshold), quarantine heap audit + differential observation"),
  "C03": ("fault_enumeration",
    "The VM's clock is its instruction budget. Seeded programs with busy work / endless loops reached through 1-3 levels of host re-entry (call0 by card, call0 as a native function value, try0 that swallows its callee's failure), __sort/__min key functions, std.map callbacks and plain calls (plus G-alloc programs); the budget N is swept over every value 1..T+2 (seeded subset above a cap) and boundary values, with a controller that counts every dispatch of every nested activation and unwinds at N+1. Oracles: dispatched <= N; N < T implies Timeout; N > T leaves the outcome unchanged; non-terminating programs always time out. For one terminating program in three the budgets are also tried on a VM with a past: 2-4 runs on one VM, each under its own budget (spare, short, exact), judged against the same history run without limits: every run is bounded by the budget it was started with, whatever earlier runs used or left over.",
